@@ -30,6 +30,9 @@ type C12Case struct {
 	DestKind string          `json:"dest_kind"`
 	Soap     string          `json:"soap_prefix"`
 	Noise    bool            `json:"noise,omitempty"`
+	// Hist: the service provider named by the query's Issuer used the IdP before and was then deregistered, or re-registered
+	// with another certificate (the rogue key's at first).
+	Hist *History `json:"history,omitempty"`
 }
 
 func genC12Case(t *rapid.T) C12Case {
@@ -142,6 +145,17 @@ func genC12Case(t *rapid.T) C12Case {
 	q.DestPrefixed = c.DestKind != "absent" && rapid.IntRange(0, 3).Draw(t, "destprefixed") == 0
 	c.Query = q
 	c.Noise = rapid.IntRange(0, 2).Draw(t, "noise") == 0
+	if rapid.IntRange(0, 3).Draw(t, "history") == 0 {
+		for i, sp := range spec.SPs {
+			if sp.EntityID == issuer {
+				c.Hist = genHistory(t, spec, i, func(e *world.SPSpec) {
+					if len(e.KeyNames) > 0 {
+						e.KeyNames = []string{"rogue"}
+					}
+				}, true)
+			}
+		}
+	}
 	c.SignMode = rapid.SampledFrom([]string{"none", "none", "none", "none", "none", "none", "none", "valid", "rogue", "rogue-registered-cert", "edited", "empty-value", "rogue-no-keyinfo", "edited-no-keyinfo", "wrapped-header", "wrapped-header-nokeyinfo"}).Draw(t, "signmode")
 	return c
 }
@@ -237,7 +251,7 @@ func c12Run(c C12Case) c12Outcome {
 	if c.Noise {
 		wspec = withNoise(wspec)
 	}
-	w := mustBuild(wspec)
+	w := buildWithHistory(wspec, c.Hist, c.Host)
 	if c.Noise {
 		runNoise(w, wspec)
 	}
@@ -268,7 +282,7 @@ func c12Run(c C12Case) c12Outcome {
 	}
 	spIdx := -1
 	for i, sp := range c.Spec.SPs {
-		if hasIssuer && sp.EntityID == issuer {
+		if _, known := w.Store.SPSpecByEntity(sp.EntityID); hasIssuer && sp.EntityID == issuer && known {
 			spIdx = i
 		}
 	}
